@@ -1,10 +1,11 @@
 #!/bin/sh
 # regress_seeded.sh [ids...] : runs every kept seeded change (or the given ones) against the quick check of the property it breaks
 # and prints one line each; a change that is no longer caught is marked MISSED.
-cd /verif
+cd "$(dirname "$0")/.." || exit 2
+V=$(pwd)
 IDS=${*:-$(ls seeded)}
 for id in $IDS; do
-  p=$(python3 -c "import json;print(json.load(open('/verif/seeded/$id/meta.json'))['property'])")
+  p=$(python3 -c "import json;print(json.load(open('$V/seeded/$id/meta.json'))['property'])")
   out=$(tools/run_seeded.sh $id $p 2>&1 | tail -1)
   case "$out" in *"violations=0"*|*"does not apply"*|*"exit=2"*) echo "MISSED  $out";; *) echo "caught  $out";; esac
 done
